@@ -710,7 +710,7 @@ pub fn rverdict(
     det.presented_signature = Some(sig.clone());
     // rules 8, 10, 11 and 13 refuse, but the evaluation continues so that `sig_ok` is known
     let mut first: Option<Rule> = None;
-    let mut soft = |r: Rule, first: &mut Option<Rule>| {
+    let soft = |r: Rule, first: &mut Option<Rule>| {
         if first.is_none() {
             *first = Some(r);
         }
